@@ -107,3 +107,15 @@ pub fn ring_free_slots() -> Option<usize> {
 pub fn parked_commands() -> Option<usize> {
     crate::collector::global_collector::verif_parked_commands()
 }
+
+/// Whether the receiver registry is locked right now (by a collector cycle that is paused, or by a
+/// registering thread). The harness models the mutex by not scheduling a thread that would block
+/// on it; asking the real lock keeps that model faithful to whatever the code actually locks.
+pub fn registry_locked() -> bool {
+    crate::collector::global_collector::verif_registry_locked()
+}
+
+/// Whether the global collector is locked right now (a cycle is in progress).
+pub fn collector_locked() -> bool {
+    crate::collector::global_collector::verif_collector_locked()
+}
